@@ -79,6 +79,9 @@ def lifted_table(rep, rule, method, shape, extra, modes, tg_call, tier_call, wha
             v = got.value
             if "raise" in v:
                 ok = v["raise"] == v["exp_raise"]
+                if ok and v["raise"] not in set(common.ctx().module("utilities.errors").classes):
+                    out.append((mode, False, "textgrid operation raises %s, which is not a praatio error (an empty tier or empty window must not fail)" % v["raise"], None))
+                    continue
                 out.append((mode, ok, "textgrid operation raises %s, the tier operation %s" % (v["raise"], ("raises " + v["exp_raise"]) if v["exp_raise"] else "does not raise"), None))
                 continue
             if v["exp_raise"]:
